@@ -58,6 +58,30 @@ TypeUnit(v) ==
                  JObj(<<KV("p", JObj(<<>>))>>), JObj(<<KV("o", JObj(<<KV("x", JObj(<<KV("c", JNum(4))>>))>>))>>) >>,
      nobuild |-> <<>>]
 
+(* ---- sets of definitions whose names normalise to ONE identifier, referring to each other ---- *)
+\* every 2- and 3-element subset of four names that all become "Node", with every way of giving each definition a
+\* property r that refers to another definition of the set (or none): while one of them is being generated, the
+\* reference leads into another one that needs a fresh suffixed name.  Each definition has its own required key, so
+\* a document tells the types apart.
+NodePool == <<"Node", "_node", "node", "node_">>
+NodeSets == {S \in SUBSET (1..Len(NodePool)) : Cardinality(S) \in {2, 3}}
+NodePars == UNION {{<<S, m>> : m \in [S -> S \cup {0}]} : S \in NodeSets}
+KeyOf(i) == CASE i = 1 -> "ka" [] i = 2 -> "kb" [] i = 3 -> "kc" [] i = 4 -> "kd"
+PropOf(i) == CASE i = 1 -> "pa" [] i = 2 -> "pb" [] i = 3 -> "pc" [] i = 4 -> "pd"
+NodeUnit(S, m) ==
+  LET ks == SetToSeq(S)
+      def(i) == Obj(<<[k |-> KeyOf(i), s |-> Int_]>>
+                    \o (IF m[i] = 0 \/ m[i] = i THEN <<>> ELSE <<[k |-> "r", s |-> [ref |-> [k |-> "defs", n |-> NodePool[m[i]]]]]>>),
+                    <<KeyOf(i)>>)
+      full == JObj([j \in DOMAIN ks |-> KV(PropOf(ks[j]), JObj(<<KV(KeyOf(ks[j]), JNum(4 * ks[j]))>>))])
+      \* the key of ANOTHER definition of the set does not satisfy this one's required key
+      wrong(j) == JObj(<<KV(PropOf(ks[j]), JObj(<<KV(KeyOf(ks[(j % Len(ks)) + 1]), JNum(4))>>))>>)
+      nested(j) == JObj(<<KV(PropOf(ks[j]), JObj(<<KV(KeyOf(ks[j]), JNum(4)), KV("r", JObj(<<>>))>>))>>)
+  IN [prop |-> "C14", fam |-> "typeset",
+      schema |-> Obj([j \in DOMAIN ks |-> [k |-> PropOf(ks[j]), s |-> [ref |-> [k |-> "defs", n |-> NodePool[ks[j]]]]]], <<>>),
+      defs |-> [j \in DOMAIN ks |-> [k |-> NodePool[ks[j]], s |-> def(ks[j])]],
+      docs |-> <<full>> \o [j \in DOMAIN ks |-> wrong(j)] \o [j \in DOMAIN ks |-> nested(j)], nobuild |-> <<>>]
+
 (* ---- capitalization lists ---- *)
 CapLists == << <<"ID">>, <<"ID", "URL">>, <<"3D", "ID">>, <<"IPv4", "ID">>, <<"Id", "URl">>, <<"Foo_Bar">> >>
 CapUnit(i) ==
@@ -67,13 +91,14 @@ CapUnit(i) ==
       docs |-> << JObj([k \in DOMAIN names |-> KV(names[k], JNum(4 * k))]) >>, nobuild |-> <<>>,
       opts |-> [capitalizations |-> CapLists[i]]]
 
-Pars(f) == CASE f = "siblings" -> Subsets [] f = "types" -> {1, 2} [] f = "caps" -> DOMAIN CapLists
+Pars(f) == CASE f = "siblings" -> Subsets [] f = "types" -> {1, 2} [] f = "caps" -> DOMAIN CapLists [] f = "typeset" -> NodePars
 u == CASE fam = "siblings" -> SibUnit(par) [] fam = "types" -> TypeUnit(par) [] fam = "caps" -> CapUnit(par)
+       [] fam = "typeset" -> NodeUnit(par[1], par[2])
 Set == picked
 
 DesignOK == Set => LET unit == u IN Valid(unit.defs, unit.schema, unit.docs[1], {}, "decl", NoLim) = Acc
 AsIsOK == TRUE
-Init == fam \in {"siblings", "types", "caps"} /\ par = 0 /\ picked = FALSE
+Init == fam \in {"siblings", "types", "caps", "typeset"} /\ par = 0 /\ picked = FALSE
 Pick == ~picked /\ picked' = TRUE /\ par' \in Pars(fam) /\ UNCHANGED fam
 Next == Pick
 Spec == Init /\ [][Next]_vars
